@@ -13,12 +13,13 @@ import (
 
 // StepRecipe describes one generated plugin step.
 type StepRecipe struct {
-	ID         string      `json:"id"`
-	Input      ScopeRecipe `json:"input"`
-	HasSignals bool        `json:"signals,omitempty"`
-	WithInit   bool        `json:"init,omitempty"`
-	Emitter    bool        `json:"emitter,omitempty"`
-	AnyData    bool        `json:"any_data,omitempty"` // step data type `any` and no initializer (the hello-world shape)
+	ID           string      `json:"id"`
+	Input        ScopeRecipe `json:"input"`
+	HasSignals   bool        `json:"signals,omitempty"`
+	WithInit     bool        `json:"init,omitempty"`
+	Emitter      bool        `json:"emitter,omitempty"`
+	AnyData      bool        `json:"any_data,omitempty"`       // step data type `any` and no initializer (the hello-world shape)
+	SameSignalID bool        `json:"same_signal_id,omitempty"` // an emitter shares its ID with the handler
 }
 
 // PluginRecipe describes a generated plugin schema.
@@ -108,10 +109,19 @@ func altScope() *schema.ScopeSchema {
 	}))
 }
 
+// pokeScope is the data schema of signals: a two-object scope whose root refers to the second object, so that
+// references inside signal data schemas have to survive describe / rebuild as well.
 func pokeScope() *schema.ScopeSchema {
-	return schema.NewScopeSchema(schema.NewObjectSchema("Poke", map[string]*schema.PropertySchema{
-		"k": schema.NewPropertySchema(schema.NewIntSchema(i64(0), i64(1000), nil), nil, true, nil, nil, nil, nil, nil),
-	}))
+	return schema.NewScopeSchema(
+		schema.NewObjectSchema("Poke", map[string]*schema.PropertySchema{
+			"k":    schema.NewPropertySchema(schema.NewIntSchema(i64(0), i64(1000), nil), nil, true, nil, nil, nil, nil, nil),
+			"meta": schema.NewPropertySchema(schema.NewRefSchema("PokeMeta", nil), nil, false, nil, nil, nil, nil, nil),
+		}),
+		schema.NewObjectSchema("PokeMeta", map[string]*schema.PropertySchema{
+			"tag":  schema.NewPropertySchema(schema.NewStringSchema(nil, i64(20), nil), nil, false, nil, nil, nil, strp(`"none"`), nil),
+			"wait": schema.NewPropertySchema(schema.NewIntSchema(nil, nil, schema.UnitDurationSeconds), nil, false, nil, nil, nil, nil, nil),
+		}),
+	)
 }
 
 // BuildPlugin builds a fresh callable plugin schema for a recipe.
@@ -170,6 +180,10 @@ func BuildPlugin(pr *PluginRecipe, rec *Recorder) *schema.CallableSchema {
 			var emitters map[string]*schema.SignalSchema
 			if sr.Emitter {
 				emitters = map[string]*schema.SignalSchema{"note": schema.NewSignalSchema("note", pokeScope(), disp("note"))}
+				if sr.SameSignalID {
+					// handlers and emitters are separate ID spaces: the same ID in both is legitimate
+					emitters["poke"] = schema.NewSignalSchema("poke", pokeScope(), disp("poke out"))
+				}
 			}
 			var init func() *Token
 			if sr.WithInit {
@@ -202,6 +216,7 @@ func GenPlugin(s Src, rich bool) *PluginRecipe {
 			sr.HasSignals = true
 			sr.WithInit = s.Choose("p.init", 2) == 1
 			sr.Emitter = s.Choose("p.emit", 2) == 1
+			sr.SameSignalID = sr.Emitter && s.Choose("p.sameid", 2) == 1
 		}
 		pr.Steps = append(pr.Steps, sr)
 	}
